@@ -78,6 +78,10 @@ type chanProbe struct {
 	sawClose bool
 }
 
+// c11SharedVar is the ONE channel variable whose address is handed to the library in every cell: callers keep
+// their channel in a struct field or a loop-external variable and store a fresh channel in it for every call.
+var c11SharedVar chan events.Event
+
 func newProbe(buffered bool) *chanProbe {
 	p := &chanProbe{buffered: buffered}
 	if buffered {
@@ -85,14 +89,16 @@ func newProbe(buffered bool) *chanProbe {
 	} else {
 		p.ch = make(chan events.Event)
 		p.done = make(chan struct{})
+		ch := p.ch
 		go func() {
-			for e := range p.ch {
+			for e := range ch {
 				p.got = append(p.got, e)
 			}
 			p.sawClose = true
 			close(p.done)
 		}()
 	}
+	c11SharedVar = p.ch
 	return p
 }
 
@@ -217,7 +223,7 @@ func c11(tier string) {
 		var chp *chan events.Event
 		if chanKind != "nil" {
 			pr = newProbe(chanKind == "buffered")
-			chp = &pr.ch
+			chp = &c11SharedVar
 		}
 		first, last := 0, 6
 		switch entry {
